@@ -59,6 +59,19 @@ def gen_case(rng: random.Random, tier: str) -> dict:
             c["dtype"] = rng.choice(["int8", "int16", "int32", "int64", "uint8"])
             lo, hi = (0, 200) if c["dtype"] == "uint8" else (-100, 100)
             c["values"] = [float(rng.randint(lo, hi)) for _ in c["values"]]
+    if rng.random() < 0.12:
+        # one column of unsigned 64-bit counters / hashes beyond the signed range; every other numeric column is a float, and no
+        # literal scales, so that no product leaves what the dtype (or a double) can hold
+        big = rng.choice([c for _nm, c in frame["cols"] if c["kind"] == "num"])
+        for _nm, c in frame["cols"]:
+            if c["kind"] == "num":
+                c["dtype"] = "float64"
+                c["values"] = [float(v) + 0.5 for v in c["values"]] if c is not big else c["values"]
+        big["dtype"] = "uint64"
+        big["values"] = [float(2 ** 63 + rng.randint(0, 2 ** 20) * 4096) for _ in big["values"]]
+        for t in terms:
+            t["scale"] = None
+            t.pop("scale2", None)
     na = "drop"
     if rng.random() < 0.25:  # missing values kept in the matrix: every product involving one is itself missing
         na = "ignore"
